@@ -124,14 +124,27 @@ pub mod ledger {
         static TLIVE: Cell<i64> = const { Cell::new(0) };
         static LOG: RefCell<Vec<(usize, usize, usize, bool)>> = const { RefCell::new(Vec::new()) };
     }
+    // The allocator honours the requested alignment *exactly*: a block requested with alignment a < 16 lies at an
+    // address that is a multiple of a but not of 2a (the system allocator would hand out 16-aligned blocks and hide a
+    // request for too small an alignment). Blocks with a >= 16 come straight from the system allocator.
+    fn backing(l: Layout) -> (Layout, usize) {
+        if l.align() < 16 {
+            (unsafe { Layout::from_size_align_unchecked(l.size() + 16, 16) }, l.align())
+        } else {
+            (l, 0)
+        }
+    }
     unsafe impl GlobalAlloc for Counting {
         unsafe fn alloc(&self, l: Layout) -> *mut u8 {
-            let p = System.alloc(l);
-            if !p.is_null() {
-                // poison fresh memory: content the library forgets to write is deterministic
-                // and distinguishable (markers have the high bit set, texts are letters)
-                std::ptr::write_bytes(p, 0x11, l.size());
+            let (bl, off) = backing(l);
+            let base = System.alloc(bl);
+            if base.is_null() {
+                return base;
             }
+            let p = base.add(off);
+            // poison fresh memory: content the library forgets to write is deterministic
+            // and distinguishable (markers have the high bit set, texts are letters)
+            std::ptr::write_bytes(p, 0x11, l.size());
             let _ = TLIVE.try_with(|c| c.set(c.get() + 1));
             log(p as usize, l, true);
             p
@@ -139,12 +152,16 @@ pub mod ledger {
         unsafe fn dealloc(&self, p: *mut u8, l: Layout) {
             let _ = TLIVE.try_with(|c| c.set(c.get() - 1));
             log(p as usize, l, false);
-            System.dealloc(p, l)
+            let (bl, off) = backing(l);
+            System.dealloc(p.sub(off), bl)
         }
         unsafe fn realloc(&self, p: *mut u8, l: Layout, n: usize) -> *mut u8 {
-            let q = System.realloc(p, l, n);
-            log(p as usize, l, false);
-            log(q as usize, Layout::from_size_align_unchecked(n, l.align()), true);
+            let nl = Layout::from_size_align_unchecked(n, l.align());
+            let q = self.alloc(nl);
+            if !q.is_null() {
+                std::ptr::copy_nonoverlapping(p, q, l.size().min(n));
+                self.dealloc(p, l);
+            }
             q
         }
     }
